@@ -15,6 +15,11 @@ def mk(s, **kw):
     return c
 
 
+def belongs(loc, langs):
+    """the reported locale is one of the languages or a regional form of one of them (language codes may themselves contain '-': zh-Hans)"""
+    return any(loc == l or loc.startswith(l + "-") for l in langs)
+
+
 def run(ctx):
     tier = ctx["tier"]
     R = rng("c13")
@@ -97,7 +102,7 @@ def run(ctx):
                          "use_given_order": given, "multi": rm, "singles": {l: val(i) for l, i in zip(sub_order, singles)}})
         if rm is not None and not str(rm).startswith("ERR:"):
             loc = rm.rsplit("|", 1)[1]
-            if loc.split("-")[0] not in sub and loc not in sub:
+            if not belongs(loc, sub):
                 viol.append({"law": "reported locale belongs to the selected languages", "s": s, "languages": sub, "multi": rm})
         rd = val(i_dl)
         if rm is not None and rd != rm:
@@ -105,7 +110,7 @@ def run(ctx):
                          "without": rm, "with": rd})
         if rm is None and rd is not None and not str(rd).startswith("ERR:"):
             loc = rd.rsplit("|", 1)[1]
-            if loc.split("-")[0] not in dl:
+            if not belongs(loc, dl):
                 viol.append({"law": "fallback locale belongs to DEFAULT_LANGUAGES", "s": s, "default_languages": dl, "with": rd})
         if L is not None:
             if val(i_re) != d["r"]:
